@@ -65,6 +65,14 @@ def enumerated(tier, seed):
                     yield dict(steps=[dict(tool=tool, switch=switch, append=append, files=True)], pre=pre, k=5)
                     yield dict(steps=[dict(tool="asm", switch=switch, append=True), dict(tool=tool, switch=switch, append=append, files=True),
                                       dict(tool=tool, switch=switch, append=True, files=True)], pre=pre, k=982)
+    # one invocation, two output switches naming the same new path: the second save meets the image the first has just
+    # written, which is of another kind
+    for tool in TOOLS:
+        for a in SWITCHES:
+            for b in SWITCHES:
+                if a != b:
+                    for append in (False, True):
+                        yield dict(steps=[dict(tool=tool, switch=a, switch2=b, append=append)], pre="absent", k=5)
     # program names that cannot be stored as bytes: the save fails, the existing image must survive
     for name in ("N\u20ac", "\u00c01", "\u540d\u524d"):
         for switch in ("--to_cas", "--to_dsk"):
@@ -258,7 +266,27 @@ def execute(case):
                 new_data, new_name = src_file["data"], "SRCFILE"
             if step["append"]:
                 argv.append("--append")
+            if step.get("switch2"):
+                argv += [step["switch2"], spelled]
             res = driver.run_cli(script, argv, cwd=tmp, env_extra={"HOME": tmp})
+            if step.get("switch2"):
+                labels.append("two_switches_one_path")
+                after = open(target, "rb").read() if os.path.exists(target) else None
+                kinds = {"--to_bin": "bin", "--to_cas": "cas", "--to_dsk": "dsk"}
+                akind, aheld = classify(after)
+                is_bin = after == bytes(new_data)
+                got = "bin" if is_bin else akind
+                if "Traceback" in res.stderr:
+                    return viol("{} {}: traceback".format(script, argv), fid="C10:crash", labels=labels)
+                if after is None or got not in (kinds[step["switch"]], kinds[step["switch2"]]):
+                    return viol("{} {}: the path holds {} ({} bytes), neither of the two kinds asked for".format(
+                        script, argv[1:], got, len(after or b"")), fid="C10:two-switches-result", labels=labels)
+                said = [l for l in (res.stdout + res.stderr).splitlines() if l.strip() and not l.startswith(("Saved to", "-- File"))]
+                if not said:
+                    return viol("{} {}: two saves of different kinds onto one path, the later one cannot apply to what the earlier one "
+                                "wrote, yet nothing is reported; the path now holds a {} image".format(script, argv[1:], got),
+                                fid="C10:two-switches-silent", labels=labels)
+                continue
             if res.status == "timeout" or ("Traceback" in res.stderr and not odd_name):
                 return viol("step {} {}: {} {}".format(sidx, argv, res.status, res.stderr.strip().splitlines()[-1:] ),
                             fid="C10:crash", labels=labels)
